@@ -158,6 +158,35 @@ pub fn cmd_mem(req: &Value) -> Value {
     json!({"out": out})
 }
 
+/// sysimage: a CoreRuntime whose memory is set up by one of the PC-E500 loader entry points, then a store/load script.
+/// {"loader": "system_image"|"rom_window", "len": n, "script": [{"st":[a,bits,v]}, {"ld":[a,bits]}]}
+pub fn cmd_sysimage(req: &Value) -> Value {
+    use sc62015_core::CoreRuntime;
+    let mut rt = CoreRuntime::new();
+    let len = req.get("len").and_then(|v| v.as_u64()).unwrap_or(0x100000) as usize;
+    let image: Vec<u8> = (0..len).map(|i| ((i * 13) ^ (i >> 8) ^ 0x3C) as u8).collect();
+    let loader = req.get("loader").and_then(|v| v.as_str()).unwrap_or("system_image");
+    let r = match loader {
+        "rom_window" => sc62015_core::pce500::load_pce500_rom_window(&mut rt, &image),
+        _ => sc62015_core::pce500::load_pce500_system_image(&mut rt, &image),
+    };
+    let mut out: Vec<Value> = Vec::new();
+    if let Err(e) = r {
+        return json!({"err": format!("{e}")});
+    }
+    if let Some(Value::Array(ops)) = req.get("script") {
+        for op in ops {
+            if let Some(a) = op.get("st") {
+                let r = rt.memory.store(u(a, 0) as u32, u(a, 1) as u8, u(a, 2) as u32);
+                out.push(json!({"ok": r.is_some()}));
+            } else if let Some(a) = op.get("ld") {
+                out.push(json!({"v": rt.memory.load(u(a, 0) as u32, u(a, 1) as u8)}));
+            }
+        }
+    }
+    json!({"out": out})
+}
+
 fn kbd_obs(kb: &sc62015_core::keyboard::KeyboardMatrix, mem: &sc62015_core::memory::MemoryImage) -> Value {
     let snap = kb.snapshot_state();
     json!({
